@@ -889,6 +889,22 @@ def run_case(ctx, case):
         # ---- aliasing: the caller scribbles over everything it handed in / got back; the displayed regions
         # must not move.  (Unchanged code: ellipsoids store the caller's arrays — recorded as information and
         # undone, see the module doc-string; rectangles compute fresh arrays.)
+        if status == "ok" and valid and conf != "rect" and isinstance(sc_arr, np.ndarray) and sc_arr.ndim < 2 \
+                and sc_arr.flags.writeable:
+            # a scalar / one-row scale is broadcast by the design space into a per-design array of its own, so the
+            # caller may reuse and rewrite ITS buffer (e.g. `scale *= 0.25` for the next round): no displayed
+            # ellipsoid — in particular none outside a later index list — may change radius
+            keep = np.array(sc_arr, copy=True)
+            sc_arr.fill(GARBAGE)
+            moved_sc = not all(_same(x, y) for x, y in zip(_snap(ds, conf), after))
+            sc_arr[...] = keep
+            ctx.count("scale_buffer_checked")
+            if moved_sc:
+                ctx.violation("aliasing:scale-buffer", "design_space.update was handed a scalar / one-row scale array; "
+                              "when the caller rewrote that array afterwards, displayed ellipsoids changed their radius "
+                              "(regions of designs outside any later index list are no longer untouched)",
+                              case, detail={"op": k, "indices": idx_l, "scale_shape": list(sc_arr.shape)})
+                return
         if status == "ok" and valid:
             arrays = [a for out in returned for a in out if isinstance(a, np.ndarray) and a.flags.writeable]
             arrays.append(sc_arr)
